@@ -407,9 +407,41 @@ def run(ctx):
   rv = [r.value for r in walk_local(pn.node) if isinstance(r, ast.Return) and r.value is not None]
   okpn = len(rv) == 1 and isinstance(rv[0], ast.Subscript) and isinstance(rv[0].slice, ast.Slice) and u(rv[0].value).endswith('.args') \
       and rv[0].slice.lower is None and u(rv[0].slice.upper) == 'len(%s)' % pn.params[1]
+  cont = None
+  if not okpn:
+    # another spelling: decide by what the returned list is built from (through the repo's own helpers)
+    from ..lib import content_eval, Uninterpreted
+
+    def spec_content(fn_, depth=0):
+      def atom(e):
+        out = set()
+        for x in ast.walk(e):
+          if isinstance(x, ast.Attribute) and x.attr in ('args', 'kwonlyargs', 'varargs', 'varkw'):
+            out.add({'args': 'ARGS', 'kwonlyargs': 'KWONLY', 'varargs': 'VARARGS', 'varkw': 'VARKW'}[x.attr])
+          elif isinstance(x, ast.Call) and depth < 3:
+            q_ = prog.resolve_call(fn_, x)
+            h_ = ctx.ix.get(q_) if q_ else None
+            if h_ is not None and hasattr(h_, 'params') and q_ not in ('config._get_cached_arg_spec',) and q_.startswith('config.'):
+              out |= spec_content(h_, depth + 1)
+        return out
+      try:
+        got_ = content_eval(fn_.node.body, atom, lambda t, env: None, may=True)
+      except Uninterpreted as e_:
+        raise AnalysisError('%s builds its list of names in a form this rule cannot interpret: %s' % (fn_.name, e_))
+      return set(got_) if isinstance(got_, set) else set()
+    cont = spec_content(pn)
+    slices = [x for r in rv for x in ast.walk(r) if isinstance(x, ast.Subscript) and isinstance(x.slice, ast.Slice)]
+    if 'KWONLY' in cont or 'VARARGS' in cont or 'VARKW' in cont:
+      okpn = False
+    elif 'ARGS' in cont and len(slices) == 1 and slices[0].slice.lower is None and slices[0].slice.step is None \
+        and u(slices[0].slice.upper) == 'len(%s)' % pn.params[1]:
+      okpn = True
+    else:
+      raise AnalysisError('_get_supplied_positional_parameter_names returns `%s`: not a form this rule can read' % [u(x) for x in rv])
   ctx.check(okpn, 'C01.precedence', construct(pn), 'names of positionally supplied values are the first len(args) *positional* parameters (surplus values go to *args)',
-            'positionally supplied names are computed as `%s`: surplus *args values are taken for keyword-only parameters, whose bindings are then dropped'
-            % [u(x) for x in rv], pn.loc(), instance='positional-names')
+            'positionally supplied names are computed as `%s` (built from the signature\'s %s): surplus *args values are taken for keyword-only '
+            'parameters, whose bindings are then dropped, and a REQUIRED marker passed for *args is no longer rejected'
+            % ([u(x) for x in rv], sorted(cont or ())), pn.loc(), instance='positional-names')
   # identity of the REQUIRED marker (a caller value that merely compares equal must reach the function unchanged)
   n_cmp, bad_cmp = 0, []
   for n_ in walk_local(f.node):
